@@ -19,7 +19,7 @@ RULE = ('seeded generator: circular / hexagon-like / segmented / off-centre / sp
 ASSUMPTIONS = ['modes linearly independent on the mask (condition number < 1e8), as the property requires']
 PLAN = {'quick': {'gen': 8}, 'thorough': {'gen': 16, 'tests': 1}}
 REQUIRED_BUCKETS = ['modes:contiguous', 'modes:noncontiguous', 'modes:unordered', 'modes:single-high', 'normalize:True',
-                    'normalize:False', 'coords:default', 'coords:supplied', 'mask:circular', 'mask:segmented', 'mask:offcentre', 'mask:weighted', 'mask:subaperture', 'cond>1e4', 'coords:switched', 'outside:fill', 'coeffs:vector-forms', 'modes:very-high', 'modes:permuted-prefix', 'modes:many', 'modes:array-forms']
+                    'normalize:False', 'coords:default', 'coords:supplied', 'mask:circular', 'mask:segmented', 'mask:offcentre', 'mask:weighted', 'mask:subaperture', 'cond>1e4', 'coords:switched', 'outside:fill', 'coeffs:vector-forms', 'modes:very-high', 'modes:permuted-prefix', 'modes:many', 'modes:array-forms', 'coords:half-supplied']
 REQUIRED_ANCHORS = ['anchor:zernike_fit', 'anchor:zernike_remove', 'anchor:zernike_compose', 'anchor:zernike_basis']
 REQUIRED_ORACLES = ['compose=own-basis', 'fit=coeffs', 'remove:residual-coeffs=0', 'remove=lstsq', 'remove:idempotent',
                     'remove:pure->0']
@@ -200,6 +200,34 @@ def workload(ctx, lentil):
                       'fitting a composed OPD does not return its coefficients', desc, scale=float(np.abs(coeffs).max()))
         except Exception as e:
             ctx.check(False, 'fit=coeffs', f'fit|raises={type(e).__name__}', str(e), desc)
+        if i % 9 == 4 and not sub:
+            # half a coordinate system (an azimuth without a radius, or the reverse): either refused, or used together with the
+            # default other half - never silently replaced by the default frame
+            ctx.bucket('coords:half-supplied')
+            with probe.quiet():
+                rho_d, theta_d = lentil.zernike_coordinates(mask.astype(float))
+            th_h = np.asarray(theta_d, float) + float(rng.uniform(0.3, 2.5))
+            rh_h = np.asarray(rho_d, float) * float(rng.uniform(0.5, 0.9))
+            for nm_, kwh, (rho_h, theta_h) in (('theta-only', dict(theta=th_h), (rho_d, th_h)), ('rho-only', dict(rho=rh_h), (rh_h, theta_d))):
+                Bh = own_basis(modes, mask, rho_h, theta_h, normalize)
+                svh = np.linalg.svd(Bh[:, mask].T, compute_uv=False)
+                if not (svh[-1] > 0 and svh[0] / svh[-1] < 1e8):
+                    continue
+                opd_h = np.tensordot(coeffs, Bh, axes=1)
+                for fn_ in ('fit', 'compose'):
+                    try:
+                        if fn_ == 'fit':
+                            got_h = np.asarray(lentil.zernike_fit(opd_h, maskf, modes, normalize=normalize, **kwh), float)
+                            ctx.close('fit=coeffs', got_h, coeffs, max(1e-10, svh[0] / svh[-1] * 1e-13), f'fit|coeffs|{nm_}|ignored',
+                                      'half a coordinate system is silently replaced by the default frame in zernike_fit', dict(desc, given=nm_),
+                                      scale=float(np.abs(coeffs).max()))
+                        else:
+                            got_h = np.asarray(lentil.zernike_compose(maskf, full, normalize=normalize, **kwh), float)
+                            ctx.close('compose=own-basis', got_h, opd_h, 1e-9, f'compose|value|{nm_}|ignored',
+                                      'half a coordinate system is silently replaced by the default frame in zernike_compose', dict(desc, given=nm_),
+                                      scale=max(float(np.abs(opd_h).max()), 1e-300))
+                    except (ValueError, TypeError):
+                        ctx.check(True, 'fit=coeffs' if fn_ == 'fit' else 'compose=own-basis', 'ok', 'ok')
         if i % 5 == 2:
             # measured maps carry a fill value (or NaN) where there is no aperture: samples outside the mask are not part of
             # the least-squares problem
